@@ -98,6 +98,20 @@ def cases(tier, seed):
                        'nmax': 40},
                 'n_tuples': int(r.choice([12, 25, 40, 0, 1]) + d),
                 'seed': int(r.randint(1000))})
+  # fewer bases than one region's discriminant directions (n_basis <
+  # min(n_classes - 1, n_features)): legal, with a warning about poor
+  # discriminative power
+  for i in range(8 if q else 120):
+    r = rng_for('c15-few-bases', seed, i)
+    d = int(r.randint(3, 6))
+    out.append({'est': 'SCML_Supervised',
+                'params': {'basis': 'lda', 'n_basis': int(1 + i % 2),
+                           'beta': 1e-5, 'gamma': 5e-3, 'batch_size': 10,
+                           'max_iter': 100, 'output_iter': 50,
+                           'k_genuine': 2, 'k_impostor': 3},
+                'ds': {'seed': int(r.randint(2**31 - 1)), 'd': d,
+                       'classes': 4, 'variant': 'plain', 'nmax': 48},
+                'n_tuples': None, 'seed': int(r.randint(1000))})
   # runs that diverge (small gamma = large steps, on noisy triplets): the objective
   # is lowest early, so anything that evaluates outside the documented
   # checkpoints changes the selected weights
